@@ -134,6 +134,8 @@ def offset_class(t):
 def check_instant(t, kind, counters, classes):
     from pycdlib import dates, rockridge, udf
     vio = []
+    # the instant as the clock gives it: with a fraction of a second (the recorded second is its floor)
+    tfl = float(t) + (0.0, 0.25, 0.5, 0.999)[t % 4]
     if true_offset(t) % 900 != 0:
         counters['excluded_offset_not_15min'] = counters.get('excluded_offset_not_15min', 0) + 1
         return vio
@@ -144,7 +146,7 @@ def check_instant(t, kind, counters, classes):
                     'replay': {'tz': os.environ.get('TZ'), 't': t}})
     counters.setdefault('timestamps_decoded', 0)
     try:
-        d = dates.DirectoryRecordDate(); d.new(float(t)); b = d.record()
+        d = dates.DirectoryRecordDate(); d.new(tfl); b = d.record()
         got = decode7(b); counters['timestamps_decoded'] += 1
         if got != t:
             report('dr-date', b.hex(), got)
@@ -154,7 +156,7 @@ def check_instant(t, kind, counters, classes):
     except Exception as e:  # recording a valid instant must not fail
         vio.append({'key': 'dr-date:raises:%s:instant:%s' % (type(e).__name__, oc), 'detail': 'TZ=%s t=%d (%s): %s' % (os.environ.get('TZ'), t, time.strftime('%Y-%m-%d %H:%M:%S', time.gmtime(t)), e), 'replay': {'tz': os.environ.get('TZ'), 't': t}})
     try:
-        v = dates.VolumeDescriptorDate(); v.new(float(t)); b = v.record()
+        v = dates.VolumeDescriptorDate(); v.new(tfl); b = v.record()
         got = decode17(b); counters['timestamps_decoded'] += 1
         if got != t:
             report('vd-date', repr(b), got)
@@ -165,7 +167,7 @@ def check_instant(t, kind, counters, classes):
         vio.append({'key': 'vd-date:raises:%s:instant:%s' % (type(e).__name__, oc), 'detail': 'TZ=%s t=%d (%s): %s' % (os.environ.get('TZ'), t, time.strftime('%Y-%m-%d %H:%M:%S', time.gmtime(t)), e), 'replay': {'tz': os.environ.get('TZ'), 't': t}})
     try:
         for flags in (0x0e, 0x8e, 0x7f, 0xff):
-            tf = rockridge.RRTFRecord(); tf.new(flags, float(t)); b = tf.record()
+            tf = rockridge.RRTFRecord(); tf.new(flags, tfl); b = tf.record()
             n = 17 if flags & 0x80 else 7
             body = b[5:]
             for k in range(len(body) // n):
@@ -181,7 +183,7 @@ def check_instant(t, kind, counters, classes):
     except Exception as e:  # recording a valid instant must not fail
         vio.append({'key': 'tf:raises:%s:instant:%s' % (type(e).__name__, oc), 'detail': 'TZ=%s t=%d (%s): %s' % (os.environ.get('TZ'), t, time.strftime('%Y-%m-%d %H:%M:%S', time.gmtime(t)), e), 'replay': {'tz': os.environ.get('TZ'), 't': t}})
     try:
-        u = udf.UDFTimestamp(); u.new(float(t)); b = u.record()
+        u = udf.UDFTimestamp(); u.new(tfl); b = u.record()
         got, typ = decode_udf(b); counters['timestamps_decoded'] += 1
         if got != t:
             report('udf-ts', b.hex(), got)
